@@ -32,7 +32,7 @@ NS = [5, 1, 2, 3, 10, 100]
 PRANGES = {'std': (1e-4, 1e6), 'twelve': (1e-6, 1e6), 'short': (1e-1, 1e5), 'narrow': (1e2, 1e3)}
 PLANETS = {'jup': (1.0, 1.0), 'neptune': (0.054, 0.35), 'heavy': (10.0, 1.2), 'earth': (0.00315, 0.0892),
            'puffy': (0.3, 1.8)}
-TLETTERS = ['iso1500', 'dec', 'inv', 'cold']
+TLETTERS = ['iso1500', 'dec', 'inv', 'cold', 'int-dec']     # int-dec: whole numbers handed over as Python ints
 MULETTERS = ['const', 'varying', 'heavy']
 PSOURCES = ['simple', 'array-grid', 'array-mild', 'array-wild', 'array-reverse', 'file-pa', 'file-bar-col1',
             'file-reverse']
@@ -51,6 +51,8 @@ def temperature_values(n, letter):
         return 2000.0 - 1300.0 * x
     if letter == 'inv':
         return 700.0 + 1500.0 * x ** 2
+    if letter == 'int-dec':
+        return [2000 - (1300 // max(n - 1, 1)) * k for k in range(n)]
     raise ValueError(letter)
 
 
@@ -123,6 +125,7 @@ def build_model(case):
                 press = FilePressureProfile(path, reverse=True)
     tv = temperature_values(n, case['T'])
     temp = Isothermal(1500.0) if tv is None else TemperatureArray(tp_array=list(tv))
+    tv = None if tv is None else np.asarray(tv, dtype=float)
     mu = case['mu']
     if mu == 'const':
         chem = TaurexChemistry(fill_gases=['H2', 'He'], ratio=0.17)
